@@ -201,6 +201,10 @@ def oracle(case: dict):
         root = materialise(case, tmp)
         idx = {os.path.normpath(f["rel"]): i for i, f in enumerate(files)}
         exp = spec_closure(files, idx, os.path.normpath(files[0]["rel"]), [])
+        if "counter" in case:
+            # the wrap-around of the placeholder counter may fall anywhere inside the read: between two include
+            # directives of one file, between a file and the files it includes, inside a comment block
+            native.set_counter(case["counter"])
         try:
             r = dictIO.DictReader.read(root)
         except RecursionError as e:
@@ -233,19 +237,22 @@ def shrink(case):
             yield {"files": case["files"], "history": h[:i] + h[i + 1:]}
         return
     files = case["files"]
+    extra = {k: v for k, v in case.items() if k != "files"}
     for i in range(len(files) - 1, 0, -1):
-        c = {"files": [copy.deepcopy(f) for j, f in enumerate(files) if j != i]}
+        c = dict(extra, files=[copy.deepcopy(f) for j, f in enumerate(files) if j != i])
         yield c
     for i, f in enumerate(files):
         for j in range(len(f["includes"])):
-            c = {"files": copy.deepcopy(files)}
+            c = dict(extra, files=copy.deepcopy(files))
             del c["files"][i]["includes"][j]
             yield c
     for i, f in enumerate(files):
         for k in list(f["content"]):
-            c = {"files": copy.deepcopy(files)}
+            c = dict(extra, files=copy.deepcopy(files))
             del c["files"][i]["content"][k]
             yield c
+    if "counter" in case:
+        yield {"files": copy.deepcopy(files)}
 
 
 KNOWN_PREDICATES = {}
@@ -324,6 +331,9 @@ def run(ctx):
     for i in range(ctx.n(350, 9000)):
         files = gen_graph(rng)
         cases.append({"files": files})
+        if i % 3 == 0:
+            # the same kind of graph read while the counter wraps around (the ids drawn straddle 999999 -> 0)
+            cases[-1]["counter"] = 999999 - rng.randrange(0, 14)
     if ctx.tier == "thorough":
         # every graph on <= 4 nodes with out-degree <= 2 (targets chosen among all nodes)
         for n in range(1, 5):
